@@ -65,3 +65,58 @@ func VerifH26UnicodeLiteral() {
 		verifAssert(v == payload, "unicode literal: value equals the written text")
 	}
 }
+
+// H26a: a call as the executor forwards it (Call.String()) re-parses to the
+// same call: name, keys, values and dynamic types.
+func VerifH26Forward() {
+	var arg interface{}
+	kind := verifChoice("kind", verifBound("kinds", 4))
+	var sval string
+	var ival int64
+	var uval uint64
+	var bval bool
+	switch kind {
+	case 0:
+		n := verifChoice("len", verifBound("len", 2)+1)
+		b := verifBytes("str", n)
+		for i := range b {
+			verifAssume(b[i] < 0x80) // ASCII (multi-byte strings: VerifH26UnicodeLiteral)
+		}
+		sval = string(b)
+		arg = sval
+	case 1:
+		ival = int64(int8(verifU8("int")))
+		arg = ival
+	case 2:
+		uval = uint64(verifU8("uint"))
+		arg = uval
+	default:
+		bval = verifBool("bool")
+		arg = bval
+	}
+	c := &Call{Name: "Row", Args: map[string]interface{}{"f": arg}}
+	text := c.String()
+	q, err := ParseString(text)
+	verifReach("forwarded text re-parsed")
+	verifAssert(err == nil, "forwarded call re-parses")
+	if err != nil || len(q.Calls) != 1 {
+		verifAssert(err != nil, "forwarded call: exactly one call")
+		return
+	}
+	got := q.Calls[0]
+	verifAssert(got.Name == "Row" && len(got.Args) == 1, "forwarded call: name and argument count")
+	switch kind {
+	case 0:
+		v, ok := got.Args["f"].(string)
+		verifAssert(ok && v == sval, "forwarded call: string argument keeps its value")
+	case 1:
+		v, ok := got.Args["f"].(int64)
+		verifAssert(ok && v == ival, "forwarded call: int64 argument keeps its value")
+	case 2:
+		v, ok := got.Args["f"].(int64)
+		verifAssert(ok && uint64(v) == uval, "forwarded call: uint64 argument keeps its value (re-parsed as an integer)")
+	default:
+		v, ok := got.Args["f"].(bool)
+		verifAssert(ok && v == bval, "forwarded call: bool argument keeps its value")
+	}
+}
